@@ -222,6 +222,7 @@ def correspond(ctx):
     CC.evaluate(ctx, c, cs, "Cases_C13")
     soil_correspond(ctx, c)
     rota_correspond(ctx, c)
+    meas_correspond(ctx, c)
     c.nontrivial = len(seen)
     c.dist["generated_variants_rejected_by_converter"] = conv_failed
     c.samples = ["%s %s" % (p[0], p[1]) for p in plan[:4] + plan[-3:]]
@@ -468,6 +469,98 @@ def rota_correspond(ctx, c):
 
 
 # ------------------------------------------------------------------------------------------------
+# measurement readers: MeasModel vs the real ExtractMeasuredDataTxt / ExtractMeasuredDataCSV
+
+def _meas_name(pos):
+    return {10000: "NMESS", 10001: "MES[0]", 10002: "MESS[0]", 77777: "model accepts, code ends in Fatal", 88888: "model ends in Fatal, code accepts",
+            70000: "row found vs no row", 66661: "python txt rendering differs from render_meas_txt",
+            66662: "python csv rendering differs from render_meas_csv", 99999: "float list length"}.get(pos, "float#%d (WG[2][0..N], WNZ, KNZ1-6, CN[1][0..N-1])" % pos)
+
+
+def meas_correspond(ctx, c):
+    import json, re as _re
+    rnd = random.Random(ctx.seed * 43 + 29)
+    wd = os.path.join(ctx.work, "meas")
+    os.makedirs(wd, exist_ok=True)
+    jobs, plan = [], []
+    D = datetime.date
+    depths = list(range(3, 21)) * (4 if ctx.thorough else 1) + [1, 2]
+    for k, n in enumerate(depths):
+        P = F.Proj()
+        fmt = rnd.choice(F.DATEFMTS); sep = rnd.choice(["", "", "."])
+        mode = ["1", "2", "3", rnd.choice(["1", "0", "x"])][k % 4]
+        def row(short=False):
+            e = (D(1980 + rnd.randrange(3), 1 + rnd.randrange(12), 1 + rnd.randrange(28)), "%04d" % rnd.randrange(1, 60), "%d" % rnd.randrange(1, 40),
+                 "%.1f" % rnd.uniform(1, 30), mode, "0.%03d" % rnd.randrange(100, 900), ".%02d" % rnd.randrange(10, 99), "0.%03d" % rnd.randrange(100, 900))
+            if not short:
+                e += ("%d" % rnd.randrange(1, 20), "%04d" % rnd.randrange(1, 20), "%.2f" % rnd.uniform(0.5, 25),
+                      "0.%03d" % rnd.randrange(100, 900), "0.%02d" % rnd.randrange(10, 99), "0.%03d" % rnd.randrange(100, 900))
+            return e
+        ident = rnd.choice(["ALLE", "10001", "FLD1"])
+        rows = [("OTHER", row()), (ident, row(short=(k % 7 == 5))), (ident, row()), ("ZZ9", row(short=True))]
+        if k % 5 == 2:
+            rows = rows[1:]
+        if k % 9 == 4:
+            rows = [r_ for r_ in rows if r_[0] != ident]          # no row of the plot
+        P.endit = rows
+        w = [round(rnd.uniform(0.2, 0.45), 3) for _ in range(21)]
+        wmin = [round(x - rnd.uniform(0.05, 0.15), 3) for x in w]
+        t, cv = F.render_endit(P, fmt, "txt", sep).encode(), F.render_endit(P, fmt, "csv", sep).encode()
+        if k % 6 == 3:        # a blank line behind the first row of the plot
+            for nm_ in ("t", "cv"):
+                ls = (t if nm_ == "t" else cv).split(b"\n"); ls.insert(3, b"")
+                if nm_ == "t": t = b"\n".join(ls)
+                else: cv = b"\n".join(ls)
+        tp, cp = os.path.join(wd, "m%d.txt" % k), os.path.join(wd, "m%d.csv" % k)
+        open(tp, "wb").write(t); open(cp, "wb").write(cv)
+        if k % 6 != 3:
+            plan.append(("render", "measurement set %d" % k, (t, cv), None, F.endit_rows(P, fmt, sep), None))
+        for data, path, csv in ((t, tp, False), (cv, cp, True)):
+            jobs.append({"id": len(jobs), "file": path, "csv": csv, "ident": ident, "n": n, "fmt": F.DATEFMTS.index(fmt), "cent": 60,
+                         "w": [float(x).hex() for x in w], "wmin": [float(x).hex() for x in wmin]})
+            plan.append(("load", "%s measurement set %d (N=%d, mode %s, %s)" % ("csv" if csv else "txt", k, n, mode, fmt), data, csv,
+                         (F.DATEFMTS.index(fmt), n, w, wmin, ident), len(jobs) - 1))
+    vh = ctx.harness()
+    jf = os.path.join(ctx.work, "meas_jobs.json")
+    json.dump(jobs, open(jf, "w"))
+    res, start = {}, 0
+    while start < len(jobs):
+        q = subprocess.run([vh, "measstate", "-jobs", jf, "-from", str(start)], stdout=subprocess.PIPE, stderr=subprocess.PIPE, text=True, timeout=600)
+        for line in q.stdout.split("\n"):
+            if line.startswith("{"):
+                o = json.loads(line); res[o["id"]] = o
+        if q.returncode == 0:
+            break
+        last = [int(x) for x in _re.findall(r"(?m)^JOB (\d+)$", q.stderr)]
+        kk = last[-1] if last else start
+        res[kk] = {"id": kk, "err": "fatal"}
+        start = kk + 1
+    cs = CC.CaseSet(per_shard=20)
+    hexf = lambda xs: "[%s]" % "; ".join(CC.fl(float(x).hex()) for x in xs)
+    for kind, name, data, csv, x, jid in plan:
+        if kind == "render":
+            terms = "; ".join('(mk_amrow "%s" "%s" [%s] "%s" [%s])' % (t_[0], t_[1], "; ".join('"%s"' % v for v in t_[2:5] + t_[9:12]), t_[5],
+                                                                       "; ".join('"%s"' % v for v in t_[6:9] + t_[12:15])) for t_ in x)
+            cs.add(lambda file, data=data, terms=terms: "MRender [%s] %d%%nat %d%%nat" % (terms, file(data[0]), file(data[1])), "renderers " + name)
+            continue
+        o = res.get(jid)
+        fm, n, w, wmin, ident = x
+        if o is None or o.get("err") == "fatal":
+            obs = "MCrash"
+        elif o["nmess"] == 0:
+            obs = "MNone"
+        else:
+            obs = '(MOk (%d)%%Z "%s" (%d)%%Z [%s])' % (o["nmess"], o["mes"], o["mess"], "; ".join(CC.fl(v) for v in o["f"]))
+        cs.add(lambda file, data=data, obs=obs: 'MLoad %d%%nat %s %d%%Z 60%%Z %d%%nat %s %s "%s" %s' % (file(data), CC.b(csv), fm, n, hexf(w), hexf(wmin), ident, obs),
+               "measurement reader " + name)
+        c.bump("measurement=" + ("csv" if csv else "txt")); c.bump("measurement-result=" + obs.split()[0].strip("("))
+    CC.evaluate(ctx, c, cs, "Cases_C13meas", fn="mmismatches", casetype="mcase",
+                extra_import="From Hermes Require Import SoilModel RotaReaderModel MeasModel C13SoilCorr C13RotaCorr C13MeasCorr.",
+                kind="measurement-state", namer=_meas_name)
+    return c
+
+
+# ------------------------------------------------------------------------------------------------
 # oracle: paired whole runs
 
 def _crop_clause(ctx, env, rnd, fails, search):
@@ -525,9 +618,12 @@ def _encodings_clause(ctx, env, rnd, search):
         allc = [(("SM", ""), ("SOY", "000")), (("WW", ""), ("SM", "")), (("ZR", "chrnew"), ("SW", "")), (("K", ""), ("WG", "")), (("SOY", "ii"), ("OA", ""))]
         crops = allc[k] if k < len(allc) else rnd.choice(allc)
         P = F.base_project(rnd, crops=crops, years=(1980, 1983))
-        P.soil = F.gen_soil(rnd, hydraulic=(k % 4 != 0))     # every 4th: table route (texture, density class, stone decide)
+        # profile depth: 16..19 dm in the quick tier (the 15-20 dm measurement interval is cut), every depth 3..20 dm in thorough
+        total = [17, 20, 16, 18, 19, 20][k] if k < 6 else 3 + (k - 6) % 18
+        P.soil = F.gen_soil(rnd, hydraulic=(k % 4 != 0), total=total)     # every 4th: table route (texture, density class, stone decide)
         P.cfg["PTF"] = 0 if k % 4 == 0 else rnd.choice([0, 0, 1, 2, 3, 4])
-        if k % 2:       # a shipped profile, python-rendered to CSV
+        P.cfg["LeachingDepth"] = min(15, total)
+        if k % 6 in (1, 5):       # a shipped profile, python-rendered to CSV
             hs, first = F.parse_soil_txt(os.path.join(env.ex, "project", "ex1", "soil_ex1.txt"), rnd.choice(["002", "005", "075", "160", "041"]))
             if hs and first:
                 P.soil = hs
